@@ -73,6 +73,7 @@ def plan(tier, seed):
     ch = [{'k': 'bfs', 'mask': m, 'depth': 2 if tier == 'quick' else 3} for m in range(256)]
     ch += [{'k': 'bfs', 'mask': m, 'link': True, 'depth': 2 if tier == 'quick' else 3} for m in LINK_MASKS]
     ch.append({'k': 'subproc'})
+    ch.append({'k': 'linkpath'})
     # the same under python -O (assertions stripped, __debug__ false)
     ch += [dict(c, optimize=True) for c in [{'k': 'bfs', 'mask': 255, 'depth': 2}, {'k': 'bfs', 'mask': 0, 'depth': 2}, {'k': 'bfs', 'mask': LINK_MASKS[0], 'link': True, 'depth': 2}]]
     return ch
@@ -217,8 +218,15 @@ def rel_cmd(cmd):
     return [a[1:] if a.startswith('@') else a for a in cmd]
 
 
-def eval_case(case):
+LINKPATH_TREE = {'pels': None, 'out': None, 'pels/T1_50000001': P1, 'pels/T2_50000002': P2, 'pels/.other.txt': b'not a pel\n', 'pels/sub': None,
+                 'pels/sub/inner_50000004': P4, 'site': None, 'site/logs': None, 'site/logs/D1_50000001': P1, 'site/logs/D4_50000004': P4,
+                 'site/logs/notes.txt': b'unrelated\n', 'site/logs/current': ('link', '../../pels/sub')}
+
+
+def eval_case(case, tree=None):
     impl.ensure(False)
+    if case.get('linkpath'):
+        return _linkpath_case(case, tree or LINKPATH_TREE)
     tree = initial_tree(case['mask'], case.get('link', False))
     for step in case['path']:
         r, tree = run_cmd(tree, COMMANDS[step[0]], step[1])
@@ -229,6 +237,41 @@ def eval_case(case):
              [MENU[i][0] for i in range(len(MENU)) if case['mask'] >> i & 1]), 'case': case} for k, t in probs]
 
 
+LINKPATH_CMDS = [['-l'], ['-a', '-E'], ['-n'], ['-i', '50000002'], ['-d', '50000001'], ['-d', '50000004'], ['-D'], ['-j'], ['-j', '-o', '@out'],
+                 ['-j', '-c', '-E', '-o', '@out'], ['--plid', '50000001', '-c']]
+
+
+def _linkpath(res):
+    """The PEL directory is the directory the given path names to the operating system: a path with `..` behind a symbolic
+    link (logs/current/.. where `current` links into another tree) is that other tree's directory, not logs."""
+    tree = LINKPATH_TREE
+    for ci, cmd in enumerate(LINKPATH_CMDS):
+        for order in (['sorted', 'reversed'] if cmd[0] in ('-d', '-i') else ['sorted']):
+            case = {'linkpath': True, 'cmd': ci, 'order': order}
+            vs = eval_case(case, tree=tree)
+            res.case(nontrivial_key=json.dumps(case), outcome='bad:' + vs[0]['key'] if vs else 'linkpath:' + cmd[0])
+            res.add(vs)
+    return res
+
+
+def _linkpath_case(case, tree):
+    cmd = LINKPATH_CMDS[case['cmd']]
+    root = tempfile.mkdtemp(prefix='c11_link_50000003_', dir=clidrv.odd_root())
+    try:
+        materialize(root, tree)
+        before = read_tree(root)
+        argv = ['-p', os.path.join(root, 'site', 'logs', 'current', '..')] + [os.path.join(root, a[1:]) if a.startswith('@') else a for a in cmd]
+        core.arm(30)
+        r = clidrv.run_main(argv, order=case['order'])
+        core.disarm()
+        after = read_tree(root)
+    finally:
+        shutil.rmtree(root, ignore_errors=True)
+    probs = model(before, rel_cmd(cmd), after, r.stdout)
+    return [{'key': 'C11:' + k, 'what': '-p <site>/logs/current/.. (current -> <other tree>/pels/sub, so the PEL directory is <other tree>/pels) %s: %s'
+             % (' '.join(rel_cmd(cmd)), t), 'case': case} for k, t in probs]
+
+
 def run_chunk(chunk):
     routed = subchunk.route(__name__, chunk)
     if routed is not None:
@@ -237,6 +280,8 @@ def run_chunk(chunk):
     impl.ensure(False)
     if chunk['k'] == 'subproc':
         return _subproc(res)
+    if chunk['k'] == 'linkpath':
+        return _linkpath(res)
     mask = chunk['mask']
     init = initial_tree(mask, chunk.get('link', False))
     seen = {canon(init): []}
